@@ -218,7 +218,9 @@ func jwsMutations() []jwsMut {
 	add("null:time", func(b *jwsBuild, c *jwsCtx) { setMember(b, timeKey(c.scheme), "null") })
 	add("number:time", func(b *jwsBuild, c *jwsCtx) { setMember(b, timeKey(c.scheme), "1700000000") })
 	add("badstring:time", func(b *jwsBuild, c *jwsCtx) { setMember(b, timeKey(c.scheme), `"yesterday"`) })
-	add("fractional:time", func(b *jwsBuild, c *jwsCtx) { setMember(b, timeKey(c.scheme), jsonStr(c.st.Add(123*time.Millisecond).Format(time.RFC3339Nano))) })
+	add("fractional:time", func(b *jwsBuild, c *jwsCtx) {
+		setMember(b, timeKey(c.scheme), jsonStr(c.st.Add(123*time.Millisecond).Format(time.RFC3339Nano)))
+	})
 	add("zone:time", func(b *jwsBuild, c *jwsCtx) {
 		setMember(b, timeKey(c.scheme), jsonStr(c.st.In(time.FixedZone("x", 5*3600+1800)).Format(time.RFC3339)))
 	})
@@ -237,7 +239,9 @@ func jwsMutations() []jwsMut {
 	add("cty-empty", func(b *jwsBuild, c *jwsCtx) { setMember(b, "cty", `""`) })
 	add("cty-other", func(b *jwsBuild, c *jwsCtx) { setMember(b, "cty", `"text/plain"`) })
 	// scheme / time pairing
-	add("scheme:unknown", func(b *jwsBuild, c *jwsCtx) { setMember(b, "io.cncf.notary.signingScheme", `"notary.x509.somethingElse"`) })
+	add("scheme:unknown", func(b *jwsBuild, c *jwsCtx) {
+		setMember(b, "io.cncf.notary.signingScheme", `"notary.x509.somethingElse"`)
+	})
 	add("scheme:empty", func(b *jwsBuild, c *jwsCtx) { setMember(b, "io.cncf.notary.signingScheme", `""`) })
 	add("scheme:case", func(b *jwsBuild, c *jwsCtx) { setMember(b, "io.cncf.notary.signingScheme", `"Notary.X509"`) })
 	add("pairing:both-times", func(b *jwsBuild, c *jwsCtx) {
@@ -286,8 +290,14 @@ func jwsMutations() []jwsMut {
 		setMember(b, "io.cncf.notary.expiry", "null")
 		addCrit(b, "io.cncf.notary.expiry")
 	})
-	add("expiry:number", func(b *jwsBuild, c *jwsCtx) { setMember(b, "io.cncf.notary.expiry", "1900000000"); addCrit(b, "io.cncf.notary.expiry") })
-	add("expiry:bad-string", func(b *jwsBuild, c *jwsCtx) { setMember(b, "io.cncf.notary.expiry", `"tomorrow"`); addCrit(b, "io.cncf.notary.expiry") })
+	add("expiry:number", func(b *jwsBuild, c *jwsCtx) {
+		setMember(b, "io.cncf.notary.expiry", "1900000000")
+		addCrit(b, "io.cncf.notary.expiry")
+	})
+	add("expiry:bad-string", func(b *jwsBuild, c *jwsCtx) {
+		setMember(b, "io.cncf.notary.expiry", `"tomorrow"`)
+		addCrit(b, "io.cncf.notary.expiry")
+	})
 	add("expiry:dup-null-after", func(b *jwsBuild, c *jwsCtx) {
 		setMember(b, "io.cncf.notary.expiry", jsonStr(c.st.Add(time.Hour).Format(time.RFC3339)))
 		b.Members = append(b.Members, jMember{"io.cncf.notary.expiry", "null"})
@@ -464,7 +474,9 @@ func jwsMutations() []jwsMut {
 	})
 	// certificates
 	add("x5c:empty", func(b *jwsBuild, c *jwsCtx) { b.X5cRaw = [][]byte{} })
-	add("x5c:leaf-garbage", func(b *jwsBuild, c *jwsCtx) { b.X5cRaw = append([][]byte{[]byte("not a certificate")}, ders(c.id.chain[1:])...) })
+	add("x5c:leaf-garbage", func(b *jwsBuild, c *jwsCtx) {
+		b.X5cRaw = append([][]byte{[]byte("not a certificate")}, ders(c.id.chain[1:])...)
+	})
 	add("x5c:second-garbage", func(b *jwsBuild, c *jwsCtx) {
 		x := ders(c.id.chain)
 		if len(x) > 1 {
@@ -474,7 +486,9 @@ func jwsMutations() []jwsMut {
 		}
 		b.X5cRaw = x
 	})
-	add("x5c:leaf-of-other-identity", func(b *jwsBuild, c *jwsCtx) { b.X5cRaw = append([][]byte{c.other.chain[0].Raw}, ders(c.id.chain[1:])...) })
+	add("x5c:leaf-of-other-identity", func(b *jwsBuild, c *jwsCtx) {
+		b.X5cRaw = append([][]byte{c.other.chain[0].Raw}, ders(c.id.chain[1:])...)
+	})
 	add("x5c:other-identity-chain", func(b *jwsBuild, c *jwsCtx) { b.X5cRaw = ders(c.other.chain) })
 	add("x5c:reversed", func(b *jwsBuild, c *jwsCtx) {
 		x := ders(c.id.chain)
